@@ -69,6 +69,7 @@ type Exec struct {
 	bindFail  map[string]bool
 	snap      map[string]*Loc // snapshot backing arrays of embedded arrays -> where they live
 	guardsSeen map[string]bool
+	idxConst   map[string]string // named loop-index terms (quantifier instances)
 	resTypes   map[string]types.Type
 	onlyProps  []string
 }
@@ -419,8 +420,9 @@ func (fr *Frame) oblige(kind, detail, cond string, clause string) {
 		}
 		return
 	}
-	if c := x.w.contracts[x.fnKey]; c != nil && c.Lenient && kind != "guard" && !(kind == "post" && strings.HasPrefix(detail, "check:")) {
-		// lenient contracts claim their call-site guards only
+	if c := x.w.contracts[x.fnKey]; c != nil && c.Lenient && kind != "guard" && kind != "inv-init" && kind != "inv-pres" && !(kind == "post" && strings.HasPrefix(detail, "check:")) {
+		// lenient contracts claim their call-site guards and checks only (and prove the loop
+		// invariants those rest on); safety conditions and callee preconditions are assumed
 		if kind != "post" && kind != "frame" {
 			x.em.Assert(sImp(fr.curReach, cond))
 		}
@@ -444,7 +446,7 @@ func (fr *Frame) oblige(kind, detail, cond string, clause string) {
 	}
 	if !x.discover {
 		x.obls = append(x.obls, &Obligation{Name: name, Kind: kind, Fn: x.fnKey, Props: x.props, Pos: x.em.Mark(),
-			Goal: sAnd(fr.curReach, sNot(cond)), Expect: "unsat", Clause: clause, em: x.em, replay: x.replayCtx, rets: x.curRets, Only: x.onlyProps})
+			Goal: sAnd(fr.curReach, sNot(strings.ReplaceAll(cond, "(hint ", "(hintg "))), Expect: "unsat", Clause: clause, em: x.em, replay: x.replayCtx, rets: x.curRets, Only: x.onlyProps})
 	}
 	if kind == "post" || kind == "frame" {
 		// nothing follows a return; keeping failed postconditions out of the assumptions also
